@@ -802,8 +802,10 @@ package rosmar
 //@
 //@ fn evalSubdocPath
 //@   modular
-//@   flag trusted=json-tree-walk
-//@   ensures isnull(result0) ==> result1 != nil
+//@   requires subdoc != nil
+//@   loop 1 invariant [C18:evalSubdocPath.walk] subdoc != nil
+//@   ensures [C18:evalSubdocPath.nil-means-error] isnull(result0) ==> result1 != nil
+//@   ensures [C18:evalSubdocPath.error-means-nil] result1 != nil ==> isnull(result0)
 //@ fn upsertSubdocValue
 //@   modular
 //@   flag trusted=json-tree-edit
